@@ -18,7 +18,7 @@ them on the real code:
 | `P`   | `self._collection.pop(uri, None)` in `_check` (stale) – then `_load`    | `P`   |
 | `F`   | `os.path.isfile(srcfile)` for directory `d`                             | `F`   |
 | `Acq` | `self._mutex.acquire()` – blocks while the mutex is held                | `A`   |
-| `H2`  | second-chance `self._collection[uri]` in `_load`: a hit is returned **without** `_check` | `R` |
+| `H2`  | second-chance `self._collection[uri]` in `_load`: a hit is kept, the mutex released (`X`), then `_check` (`S` …) when `filesystem_checks` | `R` |
 | `C`   | `Template(uri=…, filename=…)`: reads the file's content *now*, stamps `_modified_time = time.time()`; may raise | `C` |
 | `W`   | `self._collection[uri] = template` (LRU: `_Item` stamped on creation, value replaced in place otherwise) | `W` |
 | `M`   | LRU `_manage_size`: `while len(self) > capacity + capacity*threshold` + `sorted(…)[capacity:]` | `L` |
@@ -34,9 +34,8 @@ render finds unset (the `memoized_property.__get__` of `Template.reserved_names`
 failed check and the write other threads may run; the write stores a value that depends on the cell only.
 
 `adjust k` is `lookup.adjust_uri(uri, relativeto)` (the first thing every include / inherit / namespace-file does):
-point `c` (`key in self._uri_cache`), then `g` (`self._uri_cache[key]`, a key evicted meanwhile raises `KeyError` – there
-is no `try`) or `s` (store the computed value; for the bounded lookup `LRUCache.__setitem__` with its `_manage_size` as
-one step).
+point `g` (`try: return self._uri_cache[key]`; the LRU re-stamps a hit), on `KeyError` point `s` (store the computed
+value; for the bounded lookup `LRUCache.__setitem__` with its `_manage_size` as one step).
 
 Time: `clock` = `time.time()` = the mtime given to written files (whole seconds, as C14/C16 quantify);
 `lruClock` = `timeit.default_timer()` as a strictly increasing counter.  Ghost state (never read by the code
@@ -116,7 +115,7 @@ inductive Res
   | noTemplate
   /-- `adjust_uri` returned the adjusted URI of key `k` -/
   | adjusted (k : Nat)
-  /-- `adjust_uri` raised `KeyError` (the key was evicted between `key in self._uri_cache` and the read) -/
+  /-- `adjust_uri` raised `KeyError` (no step of the current code delivers it; it was F-C16-2) -/
   | keyError
 deriving DecidableEq, Repr
 
@@ -134,9 +133,9 @@ inductive Pc
   | gMd (r : Res) (todo : List Uri)
   | gP2 (u : Uri)
   | gRel (r : Res)
+  /-- `_load` after a second-chance HIT: about to release the mutex; then `_check(uri, t)` when `filesystem_checks` -/
+  | gRelS (u : Uri) (t : Tmpl)
   | rK (t : Tmpl) (ctx : Nat) (kinds : List Nat) (todo : List Nat) (used : List Nat)
-  /-- `adjust_uri`: `key in self._uri_cache` was true; about to read `self._uri_cache[key]` -/
-  | aG (k : Nat)
   /-- `adjust_uri`: the key was absent; about to store the computed value (`__setitem__` + `_manage_size`) -/
   | aS (k : Nat)
 deriving DecidableEq, Repr
@@ -277,8 +276,14 @@ def startOp (cfg : Cfg) (sh : Sh) (th : Thread) : Op → Sh × Thread
     | none => (sh, th.ret .noTemplate)
     | some t => (sh, th.afterScan (renderScan sh.memo t ctx kinds kinds []))
   | .adjust k =>
-    -- `if key in self._uri_cache:`
-    if uHas sh.ucache k then (sh, th.at (.aG k)) else (sh, th.at (.aS k))
+    -- `try: return self._uri_cache[key]` (the LRU re-stamps) `except KeyError: pass`
+    if uHas sh.ucache k then
+      match cfg.cap with
+      | none => (sh, th.ret (.adjusted k))
+      | some _ =>
+        ({ sh with ucache := sh.ucache.map (fun e => if e.1 = k then (e.1, sh.lruClock) else e),
+                   lruClock := sh.lruClock + 1 }, th.ret (.adjusted k))
+    else (sh, th.at (.aS k))
 
 /-- one atomic step of thread `tid` (its record is `th`) on the shared state -/
 def tstep (cfg : Cfg) (tid : Tid) (sh : Sh) (th : Thread) : Option (Sh × Thread) :=
@@ -305,7 +310,7 @@ def tstep (cfg : Cfg) (tid : Tid) (sh : Sh) (th : Thread) : Option (Sh × Thread
     | some _ => none
   | .gH2 u d =>
     match (readColl cfg sh u).1 with
-    | some t => some ((readColl cfg sh u).2, th.at (.gRel (th.okRes t true)))
+    | some t => some ((readColl cfg sh u).2, th.at (.gRelS u t))
     | none => some ((readColl cfg sh u).2, th.at (.gC u d))
   | .gC u d =>
     let sh' := { sh with constructions := sh.constructions + 1 }
@@ -340,21 +345,16 @@ def tstep (cfg : Cfg) (tid : Tid) (sh : Sh) (th : Thread) : Option (Sh × Thread
     else some (sh, th.at (.gM r))                   -- `KeyError` → `break`
   | .gP2 u => some ({ sh with coll := remove sh.coll u }, th.at (.gRel .compileError))
   | .gRel r => some ({ sh with mutex := none }, th.ret r)
+  | .gRelS u t =>
+    -- `finally: release`; then `return self._check(uri, template)` (outside the mutex) or `return template`
+    if cfg.checks then some ({ sh with mutex := none }, th.at (.gS u t))
+    else some ({ sh with mutex := none }, th.ret (th.okRes t true))
   | .rK _ _ _ [] _ => some (sh, th.at .idle)        -- not produced by `renderScan`
   | .rK t ctx kinds (k :: rest) used =>
     let v := memoVal t.id k
     some ({ sh with memo := fun i j => if i = t.id ∧ j = k then some v else sh.memo i j },
           th.afterScan (renderScan (fun i j => if i = t.id ∧ j = k then some v else sh.memo i j)
                           t ctx kinds rest (used ++ [v])))
-  | .aG k =>
-    -- `return self._uri_cache[key]` – no `try`: a key evicted since the test raises `KeyError`
-    if uHas sh.ucache k then
-      match cfg.cap with
-      | none => some (sh, th.ret (.adjusted k))
-      | some _ =>
-        some ({ sh with ucache := sh.ucache.map (fun e => if e.1 = k then (e.1, sh.lruClock) else e),
-                        lruClock := sh.lruClock + 1 }, th.ret (.adjusted k))
-    else some (sh, th.ret .keyError)
   | .aS k =>
     match cfg.cap with
     | none => some ({ sh with ucache := uSet none sh.ucache k 0 }, th.ret (.adjusted k))
@@ -384,7 +384,7 @@ instance (th : Thread) : Decidable th.finished := by unfold Thread.finished; exa
 
 /-- the pcs at which `_load` holds the mutex -/
 def Pc.holding : Pc → Bool
-  | .gH2 .. | .gC .. | .gW .. | .gM .. | .gMd .. | .gP2 .. | .gRel .. => true
+  | .gH2 .. | .gC .. | .gW .. | .gM .. | .gMd .. | .gP2 .. | .gRel .. | .gRelS .. => true
   | _ => false
 
 /-- the pcs inside an `LRUCache.__setitem__` / `_manage_size` -/
